@@ -84,7 +84,7 @@ fn parse_pattern(p: &str) -> Vec<Part> {
 fn boundary(ty: &str, extra: &Option<String>, lang: &str) -> Vec<String> {
     let v = |xs: &[&str]| xs.iter().map(|s| s.to_string()).collect::<Vec<_>>();
     match ty {
-        "NUMBER" => v(&["5", "0", "1", "-1", "12", "23", "24", "25", "31", "2147483648", "1000000000000000", "100000000000000000000", "0,5", "-100000000000000000000"]),
+        "NUMBER" => v(&["5", "0", "1", "-1", "12", "23", "24", "25", "31", "2147483648", "1000000000000000", "100000000000000000000", "0,5", "-100000000000000000000", "-9223372036854775808", "9223372036854775807"]),
         "PERCENT" => v(&["10%", "0%", "-5%", "%7", "150%"]),
         "MONEY" => v(&["10 usd", "$0", "5 aed", "-3 try", "1k eur", "99999999999999999999 jpy"]),
         "DATE" => v(&["15/6/2021", "1/1/1", "31/12/9999", "29/2/2020", "31/1/2021", "15/12/2020", "15/11/2020", "1/3/2021", "today"]),
@@ -264,6 +264,24 @@ impl Prop for C01 {
                     let b = ch.pick(&pool).clone();
                     let op = *ch.pick(&[" + ", " - ", " * ", " / ", " "]);
                     Some(simple("en", format!("{}{}{}", a, op, b)))
+                },
+            ));
+            f.push(Family::new(
+                "every-operator-character",
+                Mode::Full,
+                "the tokenizer takes every character that is no digit, letter or blank as an operator: every ordered pair of the number, percentage and money boundary values (thorough: of all kinds) joined by each ASCII punctuation character and by the symbols [x-times, division sign, minus sign, middle dot, not-equal, euro-less currency sign], with blanks around it and without: returns normally",
+                move |ch| {
+                    let kinds: &[&str] = if tier == Tier::Thorough { &["NUMBER", "PERCENT", "MONEY", "DATE", "TIME", "DURATION", "DYNAMIC_TYPE"] } else { &["NUMBER", "PERCENT", "MONEY"] };
+                    let mut pool: Vec<String> = Vec::new();
+                    for ty in kinds {
+                        pool.extend(boundary(ty, &None, "en"));
+                    }
+                    let a = ch.pick(&pool).clone();
+                    let b = ch.pick(&pool).clone();
+                    let ops: Vec<char> = "!\"#$%&'()*+,-./:;<=>?@[\\]^_`{|}~×÷−·≠¤".chars().collect();
+                    let op = *ch.pick(&ops);
+                    let spaced = ch.flag();
+                    Some(simple("en", if spaced { format!("{} {} {}", a, op, b) } else { format!("{}{}{}", a, op, b) }))
                 },
             ));
             f.push(Family::new(
